@@ -12,6 +12,7 @@ pub mod bytesgen;
 pub mod corrupt;
 pub mod depth;
 pub mod frames;
+pub mod history;
 pub mod ledger;
 pub mod memlimit;
 pub mod sinks;
@@ -20,7 +21,7 @@ pub mod stacks;
 pub mod wire;
 
 pub fn all() -> Vec<&'static dyn Scenario> {
-    vec![&wire::Wire, &corrupt::Corrupt, &corrupt::CorruptSweep, &stacks::Stacks, &stacks::Count, &skip::Skip, &frames::Frames, &sinks::Sinks, &alloc::Alloc, &alloc::AllocMass, &ledger::LedgerScn, &depth::Depth, &depth::DeepStack, &memlimit::MemLimit, &append::Append]
+    vec![&wire::Wire, &corrupt::Corrupt, &corrupt::CorruptSweep, &stacks::Stacks, &stacks::Count, &skip::Skip, &frames::Frames, &sinks::Sinks, &alloc::Alloc, &alloc::AllocMass, &ledger::LedgerScn, &depth::Depth, &depth::DeepStack, &memlimit::MemLimit, &append::Append, &history::History]
 }
 
 pub fn by_name(n: &str) -> Option<&'static dyn Scenario> {
